@@ -260,6 +260,57 @@ def tab_run(ctx, stops, x, columns=None):
     return eng, res, cols
 
 
+def reset_stops_loop(ctx, sr, eng, f, st, evs, clear_idx):
+    """the default stops installed by a loop: after the clear, exactly one loop of reset inserts into
+    the stop set; it iterates (8..columns).step_by(8), can only be left when the iterator is exhausted,
+    and every iteration inserts exactly the current element.  Returns a complaint or ''."""
+    from .values import IterV
+    prog = ctx.prog
+    body = prog.bodies[f]
+    loops, back, idom, preds = body.loops()
+    segs = [s for s in sr['segments'] if s['ep'] == f and s['func'] == f]
+    by_head = {}
+    for sg in segs:
+        pre, lev = g.seg_events(dict(sg, kind='backedge'))
+        ins = [ev for ev in lev if ev[0] == 'set.insert' and ev[1] == ('S', 'tabstops')]
+        by_head.setdefault(sg['head'], []).append((sg, ins, lev))
+    heads = [h for h, l in by_head.items() if any(ins for (_sg, ins, _lev) in l)]
+    if len(heads) != 1:
+        return 'no extend and %d loops inserting tab stops after reset clears them' % len(heads)
+    h = heads[0]
+    # the loop follows the clear on this path
+    marks = [i for i, ev in enumerate(evs) if ev[0] == 'loop-head' and ev[1] == f and ev[2] == h]
+    if not marks or marks[0] < clear_idx:
+        return 'the loop that installs the stops does not follow the clear'
+    if not isinstance(h, int) or h not in loops:
+        return 'stop-installing iteration is not a plain loop'
+    blocks = loops[h]
+    # `h` calls next(); the block that matches on its result is the only other place the loop is left
+    hsucc = body.succs(h)
+    exit_ok = {h} | ({hsucc[0]} if body.blocks[h]['term']['k'] == 'call' and len(hsucc) == 1 and body.blocks[hsucc[0]]['term']['k'] == 'switch' else set())
+    for b in blocks:
+        if b in exit_ok:
+            continue
+        for s2 in body.succs(b):
+            if s2 not in blocks and not body.blocks[s2].get('cleanup'):
+                return 'the loop that installs the stops can be left early (bb%d -> bb%d)' % (b, s2)
+    for (sg, ins, lev) in by_head[h]:
+        s_ = sg['st']
+        if len(ins) != 1 or not isinstance(ins[0][2], NumV) or ins[0][2].sym is None or ins[0][2].k != 0:
+            return 'an iteration of the stop loop performs %d inserts (%s)' % (len(ins), [i[2] for i in ins][:2])
+        it = s_.vn.get(('itersym', ins[0][2].sym))
+        if not isinstance(it, IterV) or it.kind != 'range':
+            return 'inserted stop %r is not the element of a range iterator' % (ins[0][2],)
+        lo, hi, incl = it.args
+        cols = get(eng, s_, 'columns')
+        okr = isinstance(lo, NumV) and lo.sym is None and lo.k == 8 and isinstance(hi, NumV) and eng.prove_cmp(s_, 'eq', hi, cols) is True and not incl
+        steps = [o for o in it.ops if o[0] == 'step_by']
+        oks = len(steps) == 1 and len(it.ops) == 1 and isinstance(steps[0][1], NumV) and steps[0][1].sym is None and steps[0][1].k == 8
+        if not (okr and oks):
+            return 'default stops come from %r with adaptors %s (documented: every 8th column 8, 16, .. < columns)' % ((lo, hi, incl), [o[0] for o in it.ops])
+    return ''
+
+
 def run_c18(ctx, chk):
     chk.assume('A-DIM', 'A-PUB', 'A-TOOL')
     sr = ctx.screen_run()
@@ -277,7 +328,12 @@ def run_c18(ctx, chk):
         ins = [ev for ev in evs if ev[0] == 'set.insert' and ev[1] == ('S', 'tabstops')]
         if not cl:
             bad.append('tab stops not cleared')
-        if len(ex) != 1 or ins:
+        if not ex and not ins and cl:
+            # accepted alternative idiom: `for stop in (8..columns).step_by(8) { tabstops.insert(stop) }`
+            why = reset_stops_loop(ctx, sr, eng, f, st, evs, cl[-1])
+            if why:
+                bad.append(why)
+        elif len(ex) != 1 or ins:
             bad.append('%d extend / %d insert operations on the tab stops' % (len(ex), len(ins)))
         else:
             i, ev = ex[0]
@@ -431,8 +487,10 @@ def run_c14(ctx, chk):
             v = sp.fields.get(fld)
             src = get(eng, st, fld)
             pv = getattr(v, 'prov', None)
-            if not (isinstance(v, CollV) and isinstance(pv, tuple) and pv[0] == 'clone' and pv[2] == ('S', fld)):
-                bad.append('%s saved from %r' % (fld, pv))
+            cloned = isinstance(v, CollV) and isinstance(pv, tuple) and pv[0] == 'clone' and pv[2] == ('S', fld)
+            copied = v is not None and src is not None and v.key() == src.key()
+            if not (cloned or copied):
+                bad.append('%s saved from %r' % (fld, pv if pv is not None else v))
         cs = sp.fields.get('charset')
         if cs is None or cs.key() != get(eng, st, 'charset').key():
             bad.append('shift state not saved from charset')
@@ -453,7 +511,7 @@ def run_c14(ctx, chk):
     cnt_pop = cnt_empty = 0
     for r, st, ret in each_final(sr, f):
         evs = st.event_list()
-        popped = any(ev[0] == 'vec.pop' and ev[1] == ('S', 'savepoints') for ev in evs)
+        popped = any(ev[0] == 'vec.pop' and ev[1] == ('S', 'savepoints') and not (isinstance(ev[2], str) and ev[2] == 'none') for ev in evs)
         wr = {tuple(p for p in ev[1] if isinstance(p, str)) for ev in evs if ev[0] == 'w'}
         ops = {(ev[0], ev[1][1]) for ev in evs if len(ev) > 1 and isinstance(ev[1], tuple) and len(ev[1]) >= 2 and ev[1][0] == 'S' and ev[0] != 'w'
                and ev[0] not in ('set.contains', 'map.get')}
@@ -757,6 +815,22 @@ def run_c12(ctx, chk):
                 chk.instance('R-MODES', 'Screen::' + name, 'mode %d private=%s' % (num, private), False, detail=str(e), undischarged=True)
                 continue
             probs = mode_effects(eng, res, eff, set_)
+            # the mode set itself, decided on exactly known initial sets (with and without the number)
+            for initial in ([DECAWM, DECTCEM, 77], [DECAWM, DECTCEM, 77, eff]):
+                init = sorted(set(initial))
+                want = sorted(set(init) | {eff}) if set_ else sorted(set(init) - {eff})
+                try:
+                    e2, r2 = run_modes_from(ctx, [num], private, set_, initial=init)
+                except Budget as e:
+                    probs.append('mode set from %s: %s' % (init, e))
+                    continue
+                if not r2:
+                    probs.append('no exit path from mode set %s' % init)
+                for (st2, _ret) in r2:
+                    got = plain(get(e2, st2, 'mode'))
+                    if got is None or sorted(got) != want:
+                        probs.append('mode set %s becomes %s, documented %s' % (init, sorted(got) if got is not None else 'not exactly known', want))
+            probs = sorted(set(probs))
             n += 1
             chk.instance('R-MODES', 'Screen::' + name, '%s%d' % ('?' if private else '', num), bool(res) and not probs, detail='; '.join(probs[:3]) or 'as documented (%d paths)' % len(res),
                          span=prog.bodies[ep(name)].span, what='%s(&[%d], %s): %s' % (name, num, str(private).lower(), '; '.join(probs[:2])))
@@ -777,6 +851,20 @@ def run_c12(ctx, chk):
     for meth, const, cname in (('draw', IRM, 'IRM'), ('draw', DECAWM, 'DECAWM'), ('linefeed', LNM, 'LNM')):
         body = prog.bodies[ep(meth)]
         found = False
+        # the method itself, its closures and the crate-local helpers it calls (two levels)
+        scope = [ep(meth)]
+        for _lvl in range(2):
+            for f_ in list(scope):
+                b_ = prog.bodies.get(f_)
+                if b_ is None:
+                    continue
+                for c_ in prog.closures_of.get(f_, []):
+                    if c_ not in scope:
+                        scope.append(c_)
+                for bi_, t_ in prog.calls(b_):
+                    kind_, callee_ = prog.resolve_callee(t_['func'].get('fn'))
+                    if kind_ == 'local' and callee_ not in scope and not callee_.startswith(LP):
+                        scope.append(callee_)
 
         def walk(o):
             nonlocal found
@@ -790,7 +878,9 @@ def run_c12(ctx, chk):
             elif isinstance(o, list):
                 for v in o:
                     walk(v)
-        walk(body.blocks)
+        for f_ in scope:
+            if f_ in prog.bodies:
+                walk(prog.bodies[f_].blocks)
         chk.instance('R-MUST', short(ep(meth)), 'consults %s' % cname, found, detail='constant %d referenced' % const, span=body.span,
                      what='%s never tests %s' % (meth, cname))
     from .rules_screen import decscnm_dirty
@@ -824,13 +914,6 @@ def mode_effects(eng, res, eff, set_):
         x0, y0 = st.vn[('entry', 'x')], st.vn[('entry', 'y')]
         c0 = st.vn[('entry', 'columns')]
         cols = get(eng, st, 'columns')
-        # the mode set itself
-        ms = [ev for ev in evs if ev[0] in ('set.extend', 'set.insert') and ev[1] == ('S', 'mode')]
-        mw = ('mode',) in wr
-        if set_ and not ms:
-            probs.append('the number is not added to the mode set')
-        if (not set_) and not mw:
-            probs.append('the mode set is not rebuilt without the number')
         if eff == DECCOLM:
             if set_:
                 if eng.prove_cmp(st, 'eq', cols, NumV(None, 132, 'u32')) is not True:
